@@ -28,6 +28,9 @@ namespace rkcommon {
 
       explicit OwnedArray(T *data, size_t size);
 
+      OwnedArray(const OwnedArray &other);
+      OwnedArray &operator=(const OwnedArray &rhs);
+
       template <size_t SIZE>
       OwnedArray &operator=(std::array<T, SIZE> &rhs);
 
@@ -63,6 +66,23 @@ namespace rkcommon {
     inline OwnedArray<T>::OwnedArray(std::vector<T> &init) : dataBuf(init)
     {
       AbstractArray<T>::setPtr(dataBuf.data(), dataBuf.size());
+    }
+
+    // NOTE: the base class points into dataBuf, so a copy has to point into its
+    //       own buffer and not into the one of the array it was copied from
+    template <typename T>
+    inline OwnedArray<T>::OwnedArray(const OwnedArray<T> &other)
+        : AbstractArray<T>(), dataBuf(other.dataBuf)
+    {
+      AbstractArray<T>::setPtr(dataBuf.data(), dataBuf.size());
+    }
+
+    template <typename T>
+    inline OwnedArray<T> &OwnedArray<T>::operator=(const OwnedArray<T> &rhs)
+    {
+      dataBuf = rhs.dataBuf;
+      AbstractArray<T>::setPtr(dataBuf.data(), dataBuf.size());
+      return *this;
     }
 
     template <typename T>
